@@ -3,6 +3,7 @@
      __init__      : self.suffix_map = {}
      file_suffix   : decorator factory; applied to a class it runs
                        for name in name_list: self.suffix_map[name] = cls
+                     (the store statement is read from the source: Gen/RegistryParams.later_wins)
      open_workbook : try: cls = self.suffix_map[source.suffix]
                      except KeyError: raise NotImplementedError(...)
                      return cls(source)
@@ -36,11 +37,13 @@ Fixpoint str_eqb (a b : str) : bool :=
 
 Definition registry := list (str * N).
 
-(* self.suffix_map[k] = c *)
+(* self.suffix_map[k] = c  (later_wins, the rule found in the source today), or
+   self.suffix_map.setdefault(k, c): an existing key keeps its value *)
 Fixpoint reg_set (r : registry) (k : str) (c : N) : registry :=
   match r with
   | [] => [(k, c)]
-  | (k', c') :: t => if str_eqb k' k then (k', c) :: t else (k', c') :: reg_set t k c
+  | (k', c') :: t =>
+      if str_eqb k' k then (k', if later_wins then c else c') :: t else (k', c') :: reg_set t k c
   end.
 
 (* self.suffix_map[k]; None = KeyError *)
